@@ -497,7 +497,23 @@ func (c *checker) runServer(sc *serverCase) (int, string, map[string]seenSeries,
 		}
 		return out
 	}
-	arrived := mon.WaitUntil(serverWatchdog, func() bool { return len(missing()) == 0 })
+	// a series of ours that no datapoint may turn into: the verdict for this run is already decided, the
+	// series it stands in for need not be waited for
+	foreign := func() bool {
+		for id, s := range backend.snapshot() {
+			if strings.HasSuffix(s.Name, ".u") || strings.HasSuffix(s.Name, ".h") {
+				if _, ok := expected[id]; !ok {
+					return true
+				}
+			}
+		}
+		return false
+	}
+	watchdog := serverWatchdog
+	if c.serverMissing >= 2 {
+		watchdog = 3 * time.Second // a build that loses metrics has been reported; do not pay 30 s per case again
+	}
+	arrived := mon.WaitUntil(watchdog, func() bool { return len(missing()) == 0 || foreign() })
 	// A metric that should have been dropped gets a few more flushes to show up. No verdict on the unchanged
 	// tree depends on this: what is dropped never arrives, however long one waits.
 	f0 := backend.flushes.Load()
@@ -515,7 +531,9 @@ func (c *checker) runServer(sc *serverCase) (int, string, map[string]seenSeries,
 func (c *checker) serverCase(sc *serverCase) {
 	r := c.r
 	status, why, seen, miss := c.runServer(sc)
-	if status == srvMissing {
+	if status == srvMissing && c.serverMissing >= 2 {
+		// already reproduced and reported twice in this process: no second run
+	} else if status == srvMissing {
 		// bounded progress in a deterministic script: once more before reporting
 		r.Event("server_missing_retry", 1)
 		var status2 int
@@ -612,6 +630,7 @@ func (c *checker) serverCase(sc *serverCase) {
 		for _, id := range mids {
 			paths[miss[id].path] = true
 		}
+		c.serverMissing++
 		for p := range paths {
 			r.Violation("server-expected-series-never-reached-backend:"+p, fmt.Sprintf("after two runs of %v each the backend was never flushed %q; it saw %d series", serverWatchdog, mids, len(seen)), sc)
 		}
